@@ -230,6 +230,22 @@ fn try_normalise(s: &str) -> Option<String> {
             format!("{} {} {} {}", match name.as_str() { "IntLinEq" => "lineq", "IntLinLe" => "linle", _ => "linne" },
                     join_or_dash(cs.iter().map(|c| c.to_string()).collect()), join_or_dash(xs), k)
         }
+        // the reified lowering of Or / Not (reify_constraint_kind); same spelling as mroutes.rs
+        "IntEqReif" | "IntNeReif" | "IntLtReif" | "IntLeReif" | "IntGtReif" | "IntGeReif" => {
+            p.field("x")?; let x = p.view()?; p.field("y")?; let y = p.view()?; p.field("b")?; let b = p.view()?;
+            format!("{} {} {} {}", match name.as_str() { "IntEqReif" => "eqr", "IntNeReif" => "ner", "IntLtReif" => "ltr", "IntLeReif" => "ler", "IntGtReif" => "gtr", _ => "ger" }, x, y, b)
+        }
+        "IntLinEqReif" | "IntLinLeReif" | "IntLinNeReif" => {
+            p.field("coefficients")?; let cs = p.int_list()?; p.field("variables")?; let xs = p.var_list()?; p.field("constant")?; let k = p.int()?;
+            p.field("reif_var")?; let b = p.view()?;
+            format!("{} {} {} {} {}", match name.as_str() { "IntLinEqReif" => "lineqr", "IntLinLeReif" => "linler", _ => "linner" },
+                    join_or_dash(cs.iter().map(|c| c.to_string()).collect()), join_or_dash(xs), k, b)
+        }
+        "BoolAnd" | "BoolOr" => {
+            p.field("operands")?; let xs = p.var_list()?; p.field("result")?; let r = p.view()?;
+            format!("{} {} {}", if name == "BoolAnd" { "band" } else { "bor" }, join_or_dash(xs), r)
+        }
+        "BoolNot" => { p.field("operand")?; let o = p.view()?; p.field("result")?; let r = p.view()?; format!("bnot {} {}", o, r) }
         _ => return None,
     };
     if p.eat("}") { p.ws(); if p.i == p.s.len() { return Some(out); } }
